@@ -120,12 +120,18 @@ func init() {
 				if n, err := fmt.Sscanf(va.Len, "%d", new(int)); n == 1 && err == nil {
 					var cnt int
 					fmt.Sscanf(va.Len, "%d", &cnt)
-					anyT := types.NewInterfaceType(nil, nil)
+					var anyT types.Type = types.NewInterfaceType(nil, nil)
+					if ps := cc.Signature().Params(); ps.Len() > 0 {
+						if sl, ok := ps.At(ps.Len() - 1).Type().(*types.Slice); ok {
+							anyT = sl.Elem()
+						}
+					}
 					for i := 0; i < cnt; i++ {
 						el := e.load(s, ElemAddr{Arr: va.Arr, Idx: addT(va.Off, fmt.Sprint(i)), Key: "arr_" + sanitize(anyT.String())}, anyT).(*Agg)
 						aref := el.F[1].(Scalar).T
 						// wrapping is only meaningful for error values; for other boxed values the fact is harmless
 						s.assume("(forall ((t Ref)) (! (=> (|$errIs| %s t) (|$errIs| %s t)) :pattern ((|$errIs| %s t))))", aref, ref, ref)
+						s.assume("(|$errIs| %s %s)", ref, aref)
 					}
 				}
 			}
